@@ -951,7 +951,7 @@ vharness! {
 }
 
 vharness! {
-    //@ twin_replay: yes
+    //@ twin_replay: thorough
     //@ props: C06 C05 C13 C14 C08
     //@ env: VERIF_MVEC_CAP=1
     //@ tier: quick
